@@ -31,6 +31,7 @@ MUST_HIT = [
     "cut",
 ]
 ASSUMPTIONS = [
+    "frame kind 'stateful': a validator whose k-th answer is the k-th bit of the pattern (a validator with a memory, e.g. an adaptive threshold) - meaningful only if the tokenizer consults the validator once per frame, in stream order",
     "reference segmentation in vf/oracles.py is a faithful reading of the C04 statement",
     "'every valid frame of a stretch >= min_length lies in a token' is checked in strict mode only for stretches that are not cut (the statement's own remainder rule withholds a short remainder there)",
 ]
@@ -132,7 +133,7 @@ def jobs(tier, seed):
         )
     from ..tokjobs import reuse_jobs
 
-    out = reuse_jobs(tier) + out
+    out = reuse_jobs(tier) + out  # (C04's population keeps init_min at its default: no init grid here)
     if tier == "thorough":
         out.insert(0, {"name": "atheris-empty-corpus", "kind": "fuzz", "seed": seed, "runs": 300000, "corpus": False})
         out.insert(0, {"name": "atheris-seeded-corpus", "kind": "fuzz", "seed": seed + 1, "runs": 300000, "corpus": True})
